@@ -94,7 +94,7 @@ func c01Show(iv interface{}) string {
 
 func runC01(c *Ctx) {
 	c.Rep.Rule = "types from the grammar of harness/gen.go (all scalar kinds, []byte, Number, RawMessage, time.Time, pointers, slices, arrays, maps with string/int/named/TextMarshaler keys, interface{}, reflect.StructOf structs with tag combinations and embedded structs, declared recursive / marshaler types), depth <= 4, several values per type incl. nil/empty/extremes, non-finite floats, invalid UTF-8, ill-formed Number/RawMessage; " +
-		"each at top level, behind a pointer and inside interface{}; Marshal, MarshalIndent (2 settings), Encoder with SetEscapeHTML(false); oracle encoding/json modulo \\b/\\f and exponent padding; non-trivial = every case"
+		"each at top level, behind a pointer and inside interface{}; Marshal, MarshalIndent (2 settings), Encoder with SetEscapeHTML(false); oracle encoding/json modulo \\b/\\f and exponent padding; ops: the Lean encoder specification (encoding/json's rules on value trees) against go-json and, as a check of the specification, against encoding/json itself; non-trivial = every case"
 	ntypes := 1500
 	if c.Thorough() {
 		ntypes = 30000
@@ -113,6 +113,9 @@ func runC01(c *Ctx) {
 		for vi, v := range vs {
 			label := t.Kind().String()
 			c01Compare(c, label, v.Interface(), t)
+			if cl := c01ClassOf(v.Interface(), nil, nil, nil, nil); !strings.HasPrefix(cl, "C08-") {
+				encOps(c, v.Interface(), true)
+			}
 			if vi == 0 {
 				p := reflect.New(t)
 				p.Elem().Set(v)
@@ -276,7 +279,13 @@ func c01WalkB(v reflect.Value, atIface bool, addr bool, inChain bool, f *c01Fact
 			if atIface {
 				dh-- // the pointer held by the interface word is not counted
 			}
-			if df := firstFieldPtrDepth(e); dh >= 1 && ((df >= 1 && df != dh) || df == -1) {
+			df := firstFieldPtrDepth(e)
+			if dh >= 1 && ((df >= 1 && df != dh) || df == -1) {
+				f.ptrNumClash = true
+			}
+			if df == -1 && e.NumField() == 1 {
+				// *struct{ F T } with a pointer-receiver marshaler T is compiled as struct{ F *T }:
+				// a nil outer pointer is then taken for the field
 				f.ptrNumClash = true
 			}
 		}
